@@ -1,9 +1,14 @@
 #!/bin/bash
-# usage: tools/seedtest.sh <patch.diff> <PID> [more PIDs...]  — apply a seeded change to /repo, run the checks, undo.
-patch=$1; shift
+# usage: tools/seedtest.sh <patch.diff> <PID> [more PIDs...]  — apply a seeded change to /repo, run the checks, undo,
+# and regenerate lean/ChessVerif/Gen from the restored tree (so that a later plain `lake build` sees the clean data).
+patch=$(readlink -f "$1"); shift
 cd /repo && git apply "$patch" || { echo "APPLY FAILED"; exit 3; }
 cd /verif
 for pid in "$@"; do
   python3 tools/vcheck.py $pid --tier quick 2>&1 | grep -E "VIOLATION|KNOWN|^\[|ERROR" | head -6
 done
 cd /repo && git checkout -- . && git status --short | grep -v _build
+cd /verif && python3 -c "
+import sys; sys.path.insert(0,'tools')
+import vbuild
+exe,_=vbuild.build_harness('san'); vbuild.gen_lean(exe)" >/dev/null 2>&1
